@@ -195,7 +195,7 @@ def _metadir(tag):
 
 
 def tlc(module, cfg=None, workers=1, extra=(), env=None, timeout=1700, xmx="4g", deque=False, tag=None,
-        cwd=None):
+        cwd=None, light=False):
     """Run TLC on spec/<module>.tla with spec/<cfg>.  Returns a dict:
        ok (no violation, finished), verdict in {ok, invariant, property, deadlock, assumption,
        postcondition, error, timeout}, states, distinct, out."""
@@ -203,6 +203,9 @@ def tlc(module, cfg=None, workers=1, extra=(), env=None, timeout=1700, xmx="4g",
     cfg = cfg or (module + ".cfg")
     md = _metadir(tag or module)
     jopts = ["-XX:+UseParallelGC", "-Xmx" + xmx, "-Xss64m", "-DTLA-Library=" + SPEC]
+    if light:   # many short single-worker JVMs side by side: keep each one's helper threads few
+        jopts += ["-XX:ParallelGCThreads=2", "-XX:CICompilerCount=2", "-XX:+UseSerialGC"]
+        jopts.remove("-XX:+UseParallelGC")
     if deque:
         jopts.append("-Dtlc2.tool.queue.IStateQueue=StateDeque")
     cmd = (["java"] + jopts + ["-cp", TLAJAR, "tlc2.TLC", "-workers", str(workers), "-metadir", md,
@@ -313,7 +316,7 @@ def validate_chunk(module, cfg, chunk, timeout=1700, xmx="3g", env=None):
     if env:
         e.update(env)
     n = sum(1 for x in open(chunk) if x.strip())
-    r = tlc(module, cfg, workers=1, env=e, timeout=timeout, xmx=xmx, tag="tr_" + os.path.basename(chunk))
+    r = tlc(module, cfg, workers=1, env=e, timeout=timeout, xmx=xmx, tag="tr_" + os.path.basename(chunk), light=True)
     out = r["out"]
     m = re.search(r'TRACE_ACCEPTED",\s*(\d+)', out)
     if m and r["rc"] == 0:
